@@ -9,6 +9,7 @@ from unyt.array import NULL_UNIT, unyt_array, unyt_quantity
 from unyt.dimensions import temperature
 from unyt.exceptions import (
     InvalidUnitOperation,
+    UnitConversionError,
     UnitInconsistencyError,
     UnytError,
 )
@@ -592,16 +593,41 @@ def _array_comp_helper(a, b):
     return a, b
 
 
+def _array_comp_tolerances(a, rtol, atol):
+    # rtol is a pure number; atol is a difference in the units of a (the
+    # units the comparison is carried out in), so only unit sizes matter
+    if hasattr(rtol, "units"):
+        if not rtol.units.is_dimensionless:
+            raise InvalidUnitOperation(
+                f"Units of rtol ({rtol.units}) are not dimensionless"
+            )
+        rtol = np.asarray(rtol) * rtol.units.base_value
+    if hasattr(atol, "units"):
+        au = getattr(a, "units", NULL_UNIT)
+        if atol.units.dimensions != au.dimensions:
+            raise UnitConversionError(
+                atol.units, atol.units.dimensions, au, au.dimensions
+            )
+        atol = np.asarray(atol) * (atol.units.base_value / au.base_value)
+    return rtol, atol
+
+
 @implements(np.isclose)
-def isclose(a, b, *args, **kwargs):
+def isclose(a, b, rtol=1e-05, atol=1e-08, equal_nan=False):
     a, b = _array_comp_helper(a, b)
-    return np.isclose._implementation(np.asarray(a), np.asarray(b), *args, **kwargs)
+    rtol, atol = _array_comp_tolerances(a, rtol, atol)
+    return np.isclose._implementation(
+        np.asarray(a), np.asarray(b), rtol=rtol, atol=atol, equal_nan=equal_nan
+    )
 
 
 @implements(np.allclose)
-def allclose(a, b, *args, **kwargs):
+def allclose(a, b, rtol=1e-05, atol=1e-08, equal_nan=False):
     a, b = _array_comp_helper(a, b)
-    return np.allclose._implementation(np.asarray(a), np.asarray(b), *args, **kwargs)
+    rtol, atol = _array_comp_tolerances(a, rtol, atol)
+    return np.allclose._implementation(
+        np.asarray(a), np.asarray(b), rtol=rtol, atol=atol, equal_nan=equal_nan
+    )
 
 
 @implements(np.array_equal)
